@@ -31,6 +31,35 @@ def angleTreeOk : DTree → List Expr → List Expr → Bool
 
 def checkAngle (e : Entry) : Bool := angleTreeOk e.tree [] []
 
+/-- A leaf that returns `acos` of the literal `-1` (`neg`) or `+1`. -/
+def isAcosLit (neg : Bool) : DTree → Bool
+  | .leaf [.num (.un .acos _ arg)] => isLitOne neg arg
+  | _ => false
+
+/-- Every path of the kernel returns `acos` of the one expression `c`, or of the bound `c` has just
+been found to lie beyond: below `-1` it returns `acos(-1)`, above `1` it returns `acos(1)`. Over the
+reals, where `arccos` is constant beyond `±1`, such a kernel *is* `arccos c`. -/
+def angleTreeExact (c : Expr) : DTree → Bool
+  | .leaf [.num (.un .acos _ arg)] => arg == c
+  | .leaf _ => false
+  | .unexplored => false
+  | .node .lt a b y n =>
+    if isLitOne true b && a == c then isAcosLit true y && angleTreeExact c n
+    else if isLitOne false a && b == c then isAcosLit false y && angleTreeExact c n
+    else false
+  | .node _ _ _ _ _ => false
+
+/-- The expression an angle kernel clamps: the operand of its first comparison with `±1`. -/
+def DTree.angleCos : DTree → Option Expr
+  | .node .lt a b _ _ => if isLitOne true b then some a else if isLitOne false a then some b else none
+  | .leaf [.num (.un .acos _ arg)] => some arg
+  | _ => none
+
+def checkAngleExact (e : Entry) : Bool :=
+  match e.tree.angleCos with
+  | some c => angleTreeExact c e.tree
+  | none => false
+
 def unCode : UnOp → Nat
   | .neg => 0 | .sqrt => 1 | .abs => 2 | .acos => 3 | .cbrt => 4 | .exp => 5 | .log => 6 | .log2 => 7
   | .log10 => 8
